@@ -6,6 +6,7 @@ observation/action specs of all environments. Every call is logged with a DESCRI
 python -m harness.lib.spec_drive <part> <tier> <seed> <out.ndjson>     part in {universe, envs}
 """
 import collections
+import dataclasses
 import itertools
 import json
 import pickle
@@ -180,8 +181,50 @@ def random_leaf_universe(rng, n):
     return out
 
 
+def _repl(v, **kw):
+    """a named tuple / dataclass value with some fields replaced"""
+    return v._replace(**kw) if hasattr(v, "_replace") else dataclasses.replace(v, **kw)
+
+
 NT2 = collections.namedtuple("NT2", ["u", "v"])
 NT3 = collections.namedtuple("NT3", ["p", "q", "r"])
+
+
+
+
+@dataclasses.dataclass
+class DC2:
+    u: object
+    v: object
+
+
+@dataclasses.dataclass
+class DC3:
+    p: object
+    q: object
+    r: object
+
+
+_CX = {}
+
+
+def _chex_classes():
+    if not _CX:
+        import chex
+
+        @chex.dataclass
+        class CX2:
+            u: object
+            v: object
+
+        @chex.dataclass
+        class CX3:
+            p: object
+            q: object
+            r: object
+
+        _CX.update(CX2=CX2, CX3=CX3)
+    return _CX["CX2"], _CX["CX3"]
 
 
 NESTED_PAIRS = []      # (spec, spec, why): nested specs built twice, children given in another keyword order / swapped
@@ -207,6 +250,12 @@ def nested_universe(leaves, rng):
         NESTED_PAIRS.append((s3, S.Spec(NT3, "NT3Spec", r=c, q=S.Spec(NT2, "Inner", v=c, u=b), p=a), "children_other_keyword_order"))
         NESTED_PAIRS.append((s3, S.Spec(NT3, "NT3Spec", r=a, q=inner, p=c), "children_swapped"))
         NESTED_PAIRS.append((s3, S.Spec(NT3, "NT3Spec", p=a, q=S.Spec(NT2, "Inner", u=c, v=b), r=c), "inner_children_swapped"))
+    # the same two-level shapes with the other documented kinds of containers: dataclasses and chex dataclasses, inside
+    # each other and mixed with named tuples
+    CX2, CX3 = _chex_classes()
+    for (outer, inner_cls) in ((DC3, DC2), (CX3, CX2), (DC3, NT2), (NT3, DC2), (CX3, DC2), (NT3, CX2)):
+        a, b, c = pick(), pick(), pick()
+        out.append(S.Spec(outer, outer.__name__ + "Spec", p=a, q=S.Spec(inner_cls, "Inner" + inner_cls.__name__, u=b, v=c), r=c))
     return out
 
 
@@ -337,20 +386,19 @@ def events_for_spec(spec, label, rng, evs, with_values=True):
                     inames = list(s0._specs)
                     idict = inner._asdict() if hasattr(inner, "_asdict") else {k: getattr(inner, k) for k in inames}
                     ISup = collections.namedtuple("ISup", inames + ["extra_inner"])
-                    vals.append(("inner_extra_field", gen._replace(**{k0: ISup(**idict, extra_inner=jnp_.zeros((), "int32"))})
-                                 if hasattr(gen, "_replace") else gen))
+                    vals.append(("inner_extra_field", _repl(gen, **{k0: ISup(**idict, extra_inner=jnp_.zeros((), "int32"))})))
                     break
             if kids and isinstance(kids[0][1], S.Array):
                 k0, s0 = kids[0]
-                bad = gen._replace(**{k0: jnp.zeros(tuple(s0.shape) + (2,), s0.dtype)})
+                bad = _repl(gen, **{k0: jnp.zeros(tuple(s0.shape) + (2,), s0.dtype)})
                 vals.append(("child_wrong_shape", bad))
                 if isinstance(s0, S.BoundedArray) and np.prod(s0.shape) > 0 and np.dtype(s0.dtype) != np.bool_:
                     mx = np.broadcast_to(np.asarray(s0.maximum), s0.shape)
                     if np.issubdtype(np.dtype(s0.dtype), np.floating):
                         if np.isfinite(mx).all():
-                            vals.append(("child_above_max", gen._replace(**{k0: jnp.asarray((np.abs(mx) * 1.5 + 1).astype(s0.dtype))})))
+                            vals.append(("child_above_max", _repl(gen, **{k0: jnp.asarray((np.abs(mx) * 1.5 + 1).astype(s0.dtype))})))
                     elif int(mx.max()) + 1 <= np.iinfo(np.dtype(s0.dtype)).max:
-                        vals.append(("child_above_max", gen._replace(**{k0: jnp.asarray((mx + 1).astype(s0.dtype))})))
+                        vals.append(("child_above_max", _repl(gen, **{k0: jnp.asarray((mx + 1).astype(s0.dtype))})))
     for vn, v in vals:
         oc, _ = outcome(lambda v=v: spec.validate(v))
         vd = value_desc(v)
